@@ -403,3 +403,6 @@ func (m *Machine) ExtraModelTerms() []*smt.Term { return m.extraModel }
 
 // WantInModel registers t to be included in models.
 func (m *Machine) WantInModel(t *smt.Term) { m.extraModel = append(m.extraModel, t) }
+
+// JNTexts returns the json.Number text variables created so far.
+func (m *Machine) JNTexts() map[*smt.Term]*Node { return m.jnTexts }
